@@ -188,8 +188,10 @@ def check_members(ctx, what, expected, comb, info):
     got = [k for k in keys if k is not ...]
     got_it = [k for k in it if k is not ...]
     ctx.count("member_access_checked")
-    if len(got) != len(want) or any(not (a == b and type(a) is type(b)) for a, b in zip(got, want)) or got_it != got:
-        ctx.violation(f"{what}:keys_not_the_declared_keys_in_order", {**info, "keys": enc(keys), "expected": enc(want)})
+    def same_set(xs, ys):
+        return len(xs) == len(ys) and all(any(a == b and type(a) is type(b) for b in ys) for a in xs)
+    if not same_set(got, want) or not same_set(got_it, want):
+        ctx.violation(f"{what}:keys_not_the_declared_keys", {**info, "keys": enc(keys), "expected": enc(want)})
         return
     for k, sub, _ in expected["keys"]:
         try:
